@@ -5,6 +5,7 @@ import (
 	"fmt"
 	"math/rand"
 	"net"
+	"strings"
 	"sync"
 	"time"
 
@@ -29,6 +30,7 @@ type schedConn struct {
 	failed    bool
 	inWrite   bool   // a Write is parked inside the transport (its caller holds the connection)
 	swdDuring int    // SetWriteDeadline calls that arrived while that Write was in flight
+	mutated   int    // the bytes handed to the parked Write were different when it was released
 	rbuf      []byte // bytes the peer sent (read side), served once; then reads block
 }
 
@@ -41,10 +43,15 @@ func (c *schedConn) Write(p []byte) (int, error) {
 		c.mu.Lock()
 		c.inWrite = true
 		c.mu.Unlock()
+		before := append([]byte(nil), p...)
 		close(c.entered)
 		<-c.gate
 		c.mu.Lock()
 		c.inWrite = false
+		if !bytes.Equal(before, p) {
+			// a Write owns its argument until it returns: nobody may touch the frame in flight
+			c.mutated++
+		}
 		c.mu.Unlock()
 		if c.failFirst >= 0 {
 			n := c.failFirst
@@ -114,6 +121,16 @@ func runSchedBlockedWriterReader(seed int64, r *rand.Rand, variant int) *scenari
 		text.masked, text.key = true, [4]byte{1, 1, 2, 3}
 	}
 	sconn.rbuf = append(ping.encode(), text.encode()...)
+	if variant == 3 {
+		// variant 3: instead of a ping the reader meets a framing violation (RSV2) while the writer is
+		// parked and an application WriteControl waits too: the 1002 close and the application's ping
+		// both go out intact once the writer lets go
+		bad := encFrame{fin: true, rsv2: true, op: 1, payload: []byte("rsv2")}
+		if srv {
+			bad.masked, bad.key = true, [4]byte{4, 3, 2, 1}
+		}
+		sconn.rbuf = bad.encode()
+	}
 	c := websocket.VerifNewConn(sconn, srv, 0, 512, nil, nil, nil)
 	// variant 0/1: the writer stays blocked for longer than the pong's one second; the reader must go on.
 	// variant 1 also has a far write deadline set by the application (the pong's own deadline is
@@ -143,7 +160,7 @@ func runSchedBlockedWriterReader(seed int64, r *rand.Rand, variant int) *scenari
 	go func() { t, p, err := c.ReadMessage(); done <- res{t, p, err} }()
 	other := []byte("keep-alive-other")
 	var oerr error
-	if variant == 2 {
+	if variant == 2 || variant == 3 {
 		time.Sleep(40 * time.Millisecond)
 		wg.Add(1)
 		go func() {
@@ -155,13 +172,17 @@ func runSchedBlockedWriterReader(seed int64, r *rand.Rand, variant int) *scenari
 	}
 	select {
 	case x := <-done:
-		if x.err != nil || x.t != 1 || string(x.p) != "behind-the-ping" {
+		if variant == 3 {
+			if x.err == nil || !strings.HasPrefix(errName(x.err), "proto:") {
+				sc.violate("RSV2 frame while the writer was parked: ReadMessage returned (%d, %q, %v), expected a protocol error", x.t, x.p, x.err)
+			}
+		} else if x.err != nil || x.t != 1 || string(x.p) != "behind-the-ping" {
 			sc.violate("writer blocked in the transport for longer than the ping handler's deadline: ReadMessage returned (%d, %q, %v); the message behind the ping must still be delivered", x.t, x.p, x.err)
 		}
 	case <-time.After(10 * time.Second):
 		sc.violate("ReadMessage did not return within 10s while the writer was blocked in the transport (the default pong waits one second at most)")
 	}
-	if variant != 2 {
+	if variant != 2 && variant != 3 {
 		close(sconn.gate)
 	}
 	wg.Wait()
@@ -169,11 +190,39 @@ func runSchedBlockedWriterReader(seed int64, r *rand.Rand, variant int) *scenari
 	if werr != nil {
 		sc.violate("the held data frame failed: %v", werr)
 	}
-	if oerr != nil {
+	if oerr != nil && !(variant == 3 && errName(oerr) == "closeSent") {
 		sc.violate("the application's WriteControl failed: %v", oerr)
 	}
-	if err := c.WriteMessage(1, []byte("after")); err != nil {
+	if err := c.WriteMessage(1, []byte("after")); err != nil && variant != 3 {
 		sc.violate("connection poisoned by the pong that could not be sent: %v", err)
+	}
+	if variant == 3 {
+		sconn.mu.Lock()
+		var wire []byte
+		for _, w := range sconn.writes {
+			wire = append(wire, w...)
+		}
+		sconn.mu.Unlock()
+		frames, rest, bad := rfcDecode(wire)
+		if bad != "" || len(rest) > 0 {
+			sc.violate("wire is not a sequence of whole frames: %s, %d stray bytes", bad, len(rest))
+		}
+		closes, pings, strange := 0, 0, 0
+		for _, f := range frames {
+			switch {
+			case f.op == 8 && len(f.payload) >= 2 && int(f.payload[0])<<8|int(f.payload[1]) == 1002:
+				closes++
+			case f.op == 9 && bytes.Equal(f.payload, other):
+				pings++
+			case f.op >= 8:
+				strange++
+			}
+		}
+		// the application's ping may lose the race against the close (ErrCloseSent) but never appears twice
+		if strange > 0 || pings > 1 || closes > 1 || (closes == 0 && elapsed < 700*time.Millisecond) || (oerr == nil && pings != 1) {
+			sc.violate("1002 close and a concurrent WriteControl waited for the connection together: wire has %d close(1002), %d application ping(s) (its WriteControl returned %v), %d other control frame(s); expected one 1002 close, the ping once iff its call returned nil, nothing else", closes, pings, oerr, strange)
+		}
+		oerr = nil
 	}
 	if variant == 2 {
 		sconn.mu.Lock()
@@ -203,6 +252,204 @@ func runSchedBlockedWriterReader(seed int64, r *rand.Rand, variant int) *scenari
 	}
 	sc.emit(fmt.Sprintf("sched seed=%d srv=%d blocked-writer-reader", seed, b2i(srv)), "ok")
 	sc.tag(fmt.Sprintf("blocked-writer-reader:%d", variant))
+	return sc
+}
+
+// Conn.Close from another goroutine while the writer sits inside the transport in the middle of a
+// fragmented message (C11: Close may be called concurrently with everything): Close closes the
+// network connection and nothing else — it returns promptly, does not panic, does not write and does
+// not touch the frame in flight; the writer's own calls then end however the transport makes them end.
+func runSchedCloseDuringWrite(seed int64, r *rand.Rand) *scenario {
+	sc := &scenario{kind: "sched", seed: seed}
+	srv := r.Intn(2) == 0
+	sconn := &schedConn{gate: make(chan struct{}), entered: make(chan struct{}), failFirst: -1}
+	ks := &keySource{keys: []byte{1, 2, 3, 4, 5, 6, 7, 8}}
+	restore := websocket.VerifSetMaskRand(&lockedReader{r: ks})
+	defer restore()
+	var pool websocket.BufferPool
+	var sp *syncPool
+	if r.Intn(2) == 0 {
+		sp = &syncPool{}
+		pool = sp
+	}
+	c := websocket.VerifNewConn(sconn, srv, 0, 256, pool, nil, nil)
+	if r.Intn(2) == 0 {
+		websocket.VerifSetCompression(c, nil)
+	}
+	payload := make([]byte, 900+r.Intn(600))
+	for i := range payload {
+		payload[i] = byte(r.Intn(256)) // incompressible: the first fragment is flushed during Write
+	}
+	var wpanic, cpanic string
+	var wg sync.WaitGroup
+	wg.Add(1)
+	go func() {
+		defer wg.Done()
+		defer func() {
+			if p := recover(); p != nil {
+				wpanic = fmt.Sprint(p)
+			}
+		}()
+		w, err := c.NextWriter(2)
+		if err != nil {
+			return
+		}
+		w.Write(payload)
+		w.Close()
+	}()
+	select {
+	case <-sconn.entered:
+	case <-time.After(30 * time.Second):
+		sc.violate("writer never reached the transport")
+		return sc
+	}
+	closed := make(chan error, 1)
+	go func() {
+		defer func() {
+			if p := recover(); p != nil {
+				cpanic = fmt.Sprint(p)
+				closed <- nil
+			}
+		}()
+		closed <- c.Close()
+	}()
+	select {
+	case <-closed:
+	case <-time.After(10 * time.Second):
+		sc.violate("Conn.Close did not return while the writer was inside the transport")
+	}
+	sconn.mu.Lock()
+	during := len(sconn.writes)
+	sconn.mu.Unlock()
+	close(sconn.gate)
+	wg.Wait()
+	if cpanic != "" {
+		sc.violate("Conn.Close panicked while the writer was inside the transport: %s", cpanic)
+	}
+	if wpanic != "" {
+		sc.violate("the writer panicked after a concurrent Conn.Close: %s", wpanic)
+	}
+	if during > 0 {
+		sc.violate("Conn.Close wrote %d frame(s) to the transport while another goroutine's Write was in flight", during)
+	}
+	if sconn.mutated > 0 {
+		sc.violate("the frame handed to the transport was modified while its Write was in flight")
+	}
+	sconn.mu.Lock()
+	var wire []byte
+	for _, w := range sconn.writes {
+		wire = append(wire, w...)
+	}
+	sconn.mu.Unlock()
+	frames, _, bad := rfcDecode(wire)
+	if bad != "" {
+		sc.violate("wire not decodable after Close during a write: %s", bad)
+	}
+	nego, _ := websocket.VerifNegotiated(c)
+	for _, p := range rfcCheck(frames, !srv, nego) {
+		sc.violate("wire violates RFC 6455 after Close during a write: %s", p)
+	}
+	msgs, _ := rfcMessages(frames)
+	for _, m := range msgs {
+		if m.complete && m.inflateErr == "" && !bytes.Equal(m.payload, payload) {
+			sc.violate("the message on the wire differs from what the writer wrote")
+		}
+	}
+	if sp != nil && sp.gets != sp.puts {
+		sc.violate("pool: %d gets, %d puts after the writer closed its message", sp.gets, sp.puts)
+	}
+	sc.emit(fmt.Sprintf("sched seed=%d srv=%d close-during-write", seed, b2i(srv)), "ok")
+	sc.tag("close-during-write")
+	return sc
+}
+
+// One PreparedMessage, two connections of the same role and settings: A's transport holds the frame
+// (inside Write) while B sends the same prepared message. The cached frame is shared; whoever uses it
+// must not write to it: the bytes A's transport was given are the same when it lets go, and both
+// wires decode to the message (C11 / C19: sharing a PreparedMessage among connections is safe).
+func runSchedSharedPrepared(seed int64, r *rand.Rand, srv bool) *scenario {
+	sc := &scenario{kind: "sched", seed: seed}
+	ks := &keySource{keys: []byte{1, 2, 3, 4, 5, 6, 7, 8, 9, 10, 11, 12}}
+	restore := websocket.VerifSetMaskRand(&lockedReader{r: ks})
+	defer restore()
+	nego := r.Intn(2) == 0
+	payload := make([]byte, []int{0, 10, 300, 3000, 70000}[r.Intn(5)])
+	for i := range payload {
+		payload[i] = byte(i * 7)
+	}
+	t := 1 + r.Intn(2)
+	pm, err := websocket.NewPreparedMessage(t, payload)
+	if err != nil {
+		sc.violate("NewPreparedMessage: %v", err)
+		return sc
+	}
+	sa := &schedConn{gate: make(chan struct{}), entered: make(chan struct{}), failFirst: -1}
+	tb := newTConn(&evlog{})
+	tb.quiet = true
+	a := websocket.VerifNewConn(sa, srv, 0, 512, nil, nil, nil)
+	b := websocket.VerifNewConn(tb, srv, 0, 512, nil, nil, nil)
+	if nego {
+		websocket.VerifSetCompression(a, nil)
+		websocket.VerifSetCompression(b, nil)
+	}
+	// a first use by B, so that the frame is cached before A takes it
+	if r.Intn(2) == 0 {
+		if err := b.WritePreparedMessage(pm); err != nil {
+			sc.violate("B: WritePreparedMessage: %v", err)
+		}
+	}
+	var aerr error
+	var wg sync.WaitGroup
+	wg.Add(1)
+	go func() { defer wg.Done(); aerr = a.WritePreparedMessage(pm) }()
+	select {
+	case <-sa.entered:
+	case <-time.After(30 * time.Second):
+		sc.violate("A never reached the transport")
+		return sc
+	}
+	for k := 0; k < 1+r.Intn(3); k++ {
+		if err := b.WritePreparedMessage(pm); err != nil {
+			sc.violate("B: WritePreparedMessage while A's frame was in flight: %v", err)
+		}
+	}
+	close(sa.gate)
+	wg.Wait()
+	if aerr != nil {
+		sc.violate("A: WritePreparedMessage: %v", aerr)
+	}
+	if sa.mutated > 0 {
+		sc.violate("the prepared frame A's transport was writing was modified while B sent the same PreparedMessage (the cached frame is shared between connections)")
+	}
+	check := func(name string, wire []byte) {
+		frames, rest, bad := rfcDecode(wire)
+		if bad != "" || len(rest) > 0 {
+			sc.violate("%s: wire not whole frames (%s, %d stray bytes)", name, bad, len(rest))
+			return
+		}
+		for _, p := range rfcCheck(frames, !srv, nego) {
+			sc.violate("%s: %s", name, p)
+		}
+		msgs, _ := rfcMessages(frames)
+		for i, m := range msgs {
+			if !m.complete || m.inflateErr != "" || m.op != t || !bytes.Equal(m.payload, payload) {
+				sc.violate("%s: message %d on the wire is not the prepared message (%s)", name, i, m.inflateErr)
+			}
+		}
+		if len(msgs) == 0 {
+			sc.violate("%s: no message on the wire", name)
+		}
+	}
+	sa.mu.Lock()
+	var wa []byte
+	for _, w := range sa.writes {
+		wa = append(wa, w...)
+	}
+	sa.mu.Unlock()
+	check("A", wa)
+	check("B", tb.wire)
+	sc.emit(fmt.Sprintf("sched seed=%d srv=%d shared-prepared", seed, b2i(srv)), "ok")
+	sc.tag("shared-prepared")
 	return sc
 }
 
@@ -440,6 +687,9 @@ func runSchedScenario(seed int64) *scenario {
 	if sconn.swdDuring > 0 {
 		sc.violate("SetWriteDeadline reached the transport %d times while another caller's Write was in flight: a caller that does not hold the connection changed the deadline of the frame being written", sconn.swdDuring)
 	}
+	if sconn.mutated > 0 {
+		sc.violate("the frame handed to the transport was modified while its Write was in flight")
+	}
 	for i, cl := range callers {
 		cnt := ctlOnWire(cl.payload)
 		if cl.isData {
@@ -569,6 +819,7 @@ func runConcScenario(seed int64) *scenario {
 		err       error
 	}
 	conns := make([]*cstate, nconn)
+	slowT := r.Intn(2) == 0
 	mixed := r.Intn(3) == 0
 	if mixed {
 		sc.tag("conc:mixed-sizes")
@@ -576,6 +827,7 @@ func runConcScenario(seed int64) *scenario {
 	for i := range conns {
 		cs := &cstate{srv: r.Intn(2) == 0, nego: r.Intn(2) == 0, t: newTConn(&evlog{})}
 		cs.t.quiet = true
+		cs.t.slow = slowT
 		wb := wbuf
 		if mixed {
 			// connections with different WriteBufferSize on one pool (the documentation advises one
@@ -628,6 +880,9 @@ func runConcScenario(seed int64) *scenario {
 		if cs.err != nil {
 			sc.violate("conn %d: write failed: %v", i, cs.err)
 			continue
+		}
+		if cs.t.mutated > 0 {
+			sc.violate("conn %d: bytes handed to the transport were modified %d times while the Write was in flight (a shared frame or buffer was written to by another connection)", i, cs.t.mutated)
 		}
 		frames, rest, bad := rfcDecode(cs.t.wire)
 		if bad != "" || len(rest) > 0 {
